@@ -298,6 +298,27 @@ def check_L(part, job):
             vr = complex(sht.evaluate_at_points(r, th, 0.7))
             if not (abs(vc - want_c) <= t * 20) or not (abs(vr - want_r) <= t * 20):
                 fail("evaluate_at_points:pole", "point-wise evaluation at theta=%s gives %s / %s, the m=0 sum is %s / %s" % ("0" if th == 0 else "pi", vc, vr, want_c, want_r))
+    # ---------------- angles given as whole numbers in integer types (theta = 0 the north pole, 1, 2, 3 rad; phi = 0, 5): the value is
+    # that at the same angle written as a float, for Python ints, numpy integers and 0-d arrays, real and complex data ------------
+    if L >= 1:
+        a = dense(len(lmc), 0)
+        r = dense(len(lmr), 1)
+        r[: L + 1] = r[: L + 1].real
+        for th_i, ph_i in ((0, 0), (1, 0), (2, 5), (3, 1), (1, 5)):
+            wc = complex(sht.evaluate_at_points(a, float(th_i), float(ph_i)))
+            wr = complex(sht.evaluate_at_points(r, float(th_i), float(ph_i)))
+            for tname, conv in (("int", int), ("np.int64", np.int64), ("np.int32", np.int32), ("0-d integer array", lambda x: np.array(x, dtype=np.int64)), ("np.float32", np.float32)):
+                part.tr(2)
+                try:
+                    gc = complex(sht.evaluate_at_points(a, conv(th_i), conv(ph_i)))
+                    gr = complex(sht.evaluate_at_points(r, conv(th_i), conv(ph_i)))
+                except Exception as e:
+                    fail("evaluate_at_points:integer-angle-raise", "point-wise evaluation at theta=%d, phi=%d given as %s raised %r" % (th_i, ph_i, tname, e))
+                    continue
+                lim = t * 20 if tname != "np.float32" else 1e-5 * (1.0 + abs(wc))
+                if not (abs(gc - wc) <= lim) or not (abs(gr - wr) <= lim):
+                    fail("evaluate_at_points:integer-angle", "point-wise evaluation at theta=%d, phi=%d given as %s is %s / %s (complex / real data), at the same angles as floats %s / %s"
+                         % (th_i, ph_i, tname, gc, gr, wc, wr))
     # ---------------- pure python paths and point-wise evaluation --------------------------------------------
     if L <= Lpy or L in (16, 33, 64):
         full_basis = L <= Lpy
